@@ -1471,6 +1471,14 @@ func (e *CoreExtension) filterLast(value interface{}, args ...interface{}) (inte
 	return nil, fmt.Errorf("cannot get last element of %T", value)
 }
 
+// sliceTypeOf returns the slice type with the element type of a slice or array value
+func sliceTypeOf(rv reflect.Value) reflect.Type {
+	if rv.Kind() == reflect.Array {
+		return reflect.SliceOf(rv.Type().Elem())
+	}
+	return rv.Type()
+}
+
 func (e *CoreExtension) filterReverse(value interface{}, args ...interface{}) (interface{}, error) {
 	if value == nil {
 		return nil, nil
@@ -1504,8 +1512,8 @@ func (e *CoreExtension) filterReverse(value interface{}, args ...interface{}) (i
 		}
 		return string(runes), nil
 	case reflect.Array, reflect.Slice:
-		// Create a new slice with the same type
-		resultSlice := reflect.MakeSlice(rv.Type(), rv.Len(), rv.Len())
+		// Create a new slice with the same element type (an array has no slice type of its own)
+		resultSlice := reflect.MakeSlice(sliceTypeOf(rv), rv.Len(), rv.Len())
 		for i, j := 0, rv.Len()-1; j >= 0; i, j = i+1, j-1 {
 			resultSlice.Index(i).Set(rv.Index(j))
 		}
@@ -1671,7 +1679,7 @@ func (e *CoreExtension) filterSlice(value interface{}, args ...interface{}) (int
 			start = 0
 		}
 		if start >= count {
-			return reflect.MakeSlice(rv.Type(), 0, 0).Interface(), nil
+			return reflect.MakeSlice(sliceTypeOf(rv), 0, 0).Interface(), nil
 		}
 
 		// Calculate end index
@@ -1692,7 +1700,7 @@ func (e *CoreExtension) filterSlice(value interface{}, args ...interface{}) (int
 		}
 
 		// Create a new slice with the same type
-		result := reflect.MakeSlice(rv.Type(), end-start, end-start)
+		result := reflect.MakeSlice(sliceTypeOf(rv), end-start, end-start)
 		for i := start; i < end; i++ {
 			result.Index(i - start).Set(rv.Index(i))
 		}
@@ -1872,7 +1880,7 @@ func (e *CoreExtension) filterSort(value interface{}, args ...interface{}) (inte
 	// Try reflection for other types
 	rv := reflect.ValueOf(value)
 	if rv.Kind() == reflect.Slice || rv.Kind() == reflect.Array {
-		result := reflect.MakeSlice(rv.Type(), rv.Len(), rv.Len())
+		result := reflect.MakeSlice(sliceTypeOf(rv), rv.Len(), rv.Len())
 		for i := 0; i < rv.Len(); i++ {
 			result.Index(i).Set(rv.Index(i))
 		}
